@@ -415,6 +415,89 @@ func c17Metamorphic(c *vk.Ctx, i int) {
 	}
 }
 
+// c17MultiField: the laws are per field. Documents carry the scored field "t", a second text field "u"
+// that repeats the same terms, and a composite field collecting both; a term query on "t" must score
+// every document exactly as it does in a twin index holding only the "t" fields (same statistics of "t"),
+// and more occurrences in "t" at equal length must win whatever "u" holds.
+func c17MultiField(c *vk.Ctx, i int) {
+	r := rand.New(rand.NewSource(vk.SubSeed(c.Seed, fmt.Sprintf("c17-mf-%d", i))))
+	L := 3 + r.Intn(10)
+	tf1 := 1 + r.Intn(L-1)
+	tf2 := tf1 + 1 + r.Intn(L-tf1)
+	if tf2 > L {
+		tf2 = L
+	}
+	type d struct {
+		id   string
+		t, u []string
+	}
+	docs := []d{
+		{"tf-lo", append(rep("a", tf1), rep("x", L-tf1)...), append(rep("a", 2+r.Intn(6)), rep("z", r.Intn(4))...)},
+		{"tf-hi", append(rep("a", tf2), rep("x", L-tf2)...), rep("z", 1+r.Intn(4))},
+	}
+	for k := 0; k < 2+r.Intn(5); k++ {
+		docs = append(docs, d{fmt.Sprintf("fill%d", k), append(rep("a", r.Intn(3)), rep("y", 1+r.Intn(5))...), append(rep("a", r.Intn(4)), rep("y", r.Intn(3))...)})
+	}
+	r.Shuffle(len(docs), func(a, b int) { docs[a], docs[b] = docs[b], docs[a] })
+	composite := i%2 == 0
+	build := func(full bool) (*bluge.Writer, *bluge.Reader) {
+		w, err := bluge.OpenWriter(bx.NoMerge(bluge.InMemoryOnlyConfig()))
+		if err != nil {
+			return nil, nil
+		}
+		b := bluge.NewBatch()
+		for k, x := range docs {
+			doc := bluge.NewDocument(x.id).AddField(bluge.NewTextField("t", strings.Join(x.t, " ")).WithAnalyzer(model.Analyzer()))
+			if full {
+				doc.AddField(bluge.NewTextField("u", strings.Join(x.u, " ")).WithAnalyzer(model.Analyzer()))
+				if composite {
+					doc.AddField(bluge.NewCompositeFieldExcluding("_all", nil))
+				}
+			}
+			b.Update(doc.ID(), doc)
+			if k%3 == 2 {
+				_ = w.Batch(b)
+				b = bluge.NewBatch()
+			}
+		}
+		_ = w.Batch(b)
+		rd, err := w.Reader()
+		if err != nil {
+			_ = w.Close()
+			return nil, nil
+		}
+		return w, rd
+	}
+	wf, rf := build(true)
+	wt, rt := build(false)
+	if wf == nil || wt == nil {
+		return
+	}
+	defer wf.Close()
+	defer wt.Close()
+	defer rf.Close()
+	defer rt.Close()
+	wit := map[string]interface{}{"docs": docs, "composite_field": composite, "L": L, "tf1": tf1, "tf2": tf2}
+	sf, _, err1 := scoresOf(rf, bluge.NewTermQuery("a").SetField("t"), false)
+	st, _, err2 := scoresOf(rt, bluge.NewTermQuery("a").SetField("t"), false)
+	c.Eval(2)
+	if err1 != nil || err2 != nil {
+		c.Violate("harness-search", fmt.Sprint(err1, err2), wit)
+		return
+	}
+	if tf2 > tf1 && !(sf["tf-hi"] > sf["tf-lo"]) {
+		c.Violate("law-tf:other-fields-present", fmt.Sprintf("field t, same length %d: tf %d scores %v, tf %d scores %v (the other field of the first document repeats the term)", L, tf1, sf["tf-lo"], tf2, sf["tf-hi"]), wit)
+	}
+	for id, s := range st {
+		if !relClose(s, sf[id], 1e-12) {
+			c.Violate("score-depends-on-other-fields", fmt.Sprintf("term query on field t, document %s: %v in the index whose documents also carry field u%s, %v in the twin index holding only t", id, sf[id], map[bool]string{true: " and a composite field", false: ""}[composite], s), wit)
+			break
+		}
+	}
+	c.Event("multi_field_twins", 1)
+	c.DistinctHash(vk.Hash64(fmt.Sprintf("mf|%d|%d|%d|%v|%d", L, tf1, tf2, composite, len(docs))))
+}
+
 // boost linearity per public query type; compound = boost * sum of parts; explanations over query trees
 func c17Queries(c *vk.Ctx, i int) {
 	r := rand.New(rand.NewSource(vk.SubSeed(c.Seed, fmt.Sprintf("c17-q-%d", i))))
@@ -601,6 +684,7 @@ func runC17(c *vk.Ctx) {
 					c17Queries(c, i)
 				case i < nQ+nMeta:
 					c17Metamorphic(c, i-nQ)
+					c17MultiField(c, i-nQ)
 				default:
 					return
 				}
